@@ -57,6 +57,8 @@ type Node struct {
 	LocName  string `json:"loc_name,omitempty"` // spelling of the header name
 	// delay before this URL's response starts (concurrent unit)
 	LatencyMs int `json:"latency_ms,omitempty"`
+	// redirect: a header line so long that the text "Location: <next>" stands at this offset of it (0: no such line)
+	LongLoc int `json:"long_loc,omitempty"`
 }
 
 type Fetch struct {
@@ -125,6 +127,10 @@ func rawOf(c Case, n Node, prefix string) string {
 	if n.Redirect {
 		var b strings.Builder
 		fmt.Fprintf(&b, "HTTP/1.1 %d Redirect\r\nServer: sim\r\n", n.Code)
+		if n.LongLoc > 0 {
+			to := c.Nodes[n.Next]
+			b.WriteString(longHeader("X-Pad: ", n.LongLoc, "Location: https://%H"+fmt.Sprint(to.Host)+"%"+to.target(prefix)) + "\r\n")
+		}
 		if loc, ok := location(c, n, prefix); ok {
 			name := n.LocName
 			if name == "" {
@@ -541,6 +547,23 @@ var headersNeutral = []Part{
 	{"Transfer-Encoding: identity", "neutral"}, {"Vary: Accept", "neutral"}, {"Link: <https://x>; rel=\"alternate\"; type=\"text/html\"", "neutral"},
 }
 
+// long header lines: whatever block size a reader uses (1 KiB … 64 KiB), the text that stands at that offset of one
+// physical line is not a header line of its own
+func longHeader(prefix string, offset int, tail string) string {
+	return prefix + strings.Repeat("a", offset-len(prefix)) + tail
+}
+
+func init() {
+	for _, b := range []int{1024, 2048, 4096, 8192, 16384, 65536} {
+		headersNeutral = append(headersNeutral,
+			Part{longHeader("X-Pad: ", b, "Content-Type: application/activity+json"), "neutral"},
+			Part{longHeader("X-Pad: ", b, "Content-Type: text/html"), "neutral"},
+			Part{longHeader("X-Pad: ", b-2, "z"), "neutral"})
+		headersErr = append(headersErr, Part{longHeader("Content-Type: text/html; note=\"", b, "Content-Type: application/json"), "err"})
+		headersCT = append(headersCT, Part{longHeader("Content-Type: application/json; note=\"", b, "Content-Type: text/html"), "ct-both"})
+	}
+}
+
 var bodiesOK = []string{`{"id":"https://%SRV%/x","type":"Note","n":1}`, `  {"type":"Person","name":"ü"}`, "\r\n{\"a\":{\"b\":[1,2,{\"c\":null}]}}", `{}`, `{"type":"Note","content":"<p>hi</p>"}` + "\n",
 	`{"a":1e3,"b":-0.5,"c":true,"d":null,"e":"\u001b"}`}
 var bodiesMay = []string{`{"a":1}xyz`, `{"a":1}{"b":2}`, `{"a":1,"a":2}`, `{"a":1}` + "\x00", `{"a":1} [`}
@@ -602,7 +625,7 @@ func genFinal(t *rapid.T, n *Node) {
 	}
 }
 
-var dirs = []string{"a", "b", "c"}
+var dirs = []string{"a", "b", "c", "x%2Fy", "a%2Fb", "d%20e"}
 
 func genWorld(t *rapid.T, maxNodes int) []Node {
 	nn := rapid.IntRange(1, maxNodes).Draw(t, "nnodes")
@@ -621,6 +644,9 @@ func genWorld(t *rapid.T, maxNodes int) []Node {
 			n.Next = rapid.IntRange(0, nn-1).Draw(t, "next") // may point backwards or at itself: cycles
 			n.LocForm = rapid.SampledFrom([]string{"abs", "abs", "abs", "path", "scheme-rel", "rel", "rel", "query", "none", "http", "http", "http-canary", "other-scheme", "unparsable"}).Draw(t, "locform")
 			n.LocName = rapid.SampledFrom([]string{"", "", "", "location", "LOCATION", "X-Location", "Content-Location"}).Draw(t, "locname")
+			if rapid.SampledFrom([]int{0, 0, 0, 0, 1}).Draw(t, "longloc") == 1 {
+				n.LongLoc = rapid.SampledFrom([]int{1024, 2048, 4096, 8192, 16384, 65536}).Draw(t, "longlocat")
+			}
 			continue
 		}
 		genFinal(t, n)
